@@ -290,7 +290,7 @@ fn push(blocks: &mut UnstableBlocks, utxos: &UtxoSet, block: Block) -> (r: Resul
 
 // module paths used by the extracted code
 mod unstable_blocks {
-    pub(crate) use super::{get_main_chain, get_main_chain_length, get_block_hashes, peek, pop, push};
+    pub(crate) use super::{get_main_chain, get_main_chain_length, get_block_hashes, get_chain_with_tip, peek, pop, push};
 }
 
 // ---------------------------------------------------------------------------------------
@@ -442,11 +442,78 @@ spec fn ctx_error_spec(s: &State, header: Header, hash: BlockHash) -> Option<Val
 uninterp spec fn header_hash(h: Header) -> BlockHash;
 uninterp spec fn block_valid_spec(s: &State, block: &Block, now: Duration) -> Option<ValidateBlockError>;
 
+// unstable_blocks::get_chain_with_tip (unstable_blocks.rs:369): the tree's verified lookup
+//@extract file=canister/src/unstable_blocks.rs item="fn get_chain_with_tip" props=C10
+//@ ret res
+//@ spec
+//@| ensures
+//@|     res.is_some() <==> blocks.tree.contains(*tip),
+//@|     res matches Some(p) ==> deref_seq(p.1@) =~= blocks.tree.subtree_at(blocks.tree.idx_path_to(*tip)).child_roots(),
+//@end
+mod ic_btc_types {
+    pub(crate) use super::BlockHash;
+}
+impl Header {
+    // [trusted:stand-in] bitcoin::block::Header::block_hash (double SHA-256 of the 80 header bytes): a function of the header
+    #[verifier::external_body]
+    fn block_hash(&self) -> (r: RawBlockHash) ensures BlockHash(r.0) == header_hash(*self) { unimplemented!() }
+}
+// ValidationContext::new (validation.rs:22) up to the construction of the context: connected to the tree? already a child of
+// its parent? R15 (`any` desugaring): `if xs.iter().any(|c| p) {` => `let mut vp_any = false; for c in xs.iter() { if p { vp_any = true; break; } } if vp_any {`
+//@slice file=canister/src/validation.rs in="impl<'a> ValidationContext<'a>" item="fn new" to_before="let chain = chain" props=C10
+//@ rewrite R15 "if tip_successors\s*\.iter\(\)\s*\.any\(\|(\w+)\| (\w+\.block_hash\(\) == &current_block_hash)\)\s*\{" => "let mut vp_any = false;\n        for \1 in tip_successors.iter() {\n            if \2 {\n                vp_any = true;\n                break;\n            }\n            proof { vp_seen = vp_seen + 1; }\n        }\n        if vp_any {"
+//@ head
+//@| // R8 slice: the admission checks of ValidationContext::new
+//@| fn validation_context_new_checks(state: &State, header: &Header) -> (r: Result<(), ValidationContextError>)
+//@|     ensures
+//@|         // BlockDoesNotExtendTree iff the parent is neither the anchor nor an unstable block; AlreadyKnown iff the block is
+//@|         // already one of its parent's children; otherwise the context is built
+//@|         r == (match ctx_error_spec(state, *header, header_hash(*header)) { Some(e) => Err::<(), ValidationContextError>(e), None => Ok(()) }),
+//@| {
+//@ tail
+//@|     proof {
+//@|         let t = state.unstable_blocks.tree;
+//@|         let node = t.subtree_at(t.idx_path_to(prev_block_hash));
+//@|         assert(tip_successors@.len() == node.children@.len());
+//@|         assert forall|i: int| 0 <= i < node.children@.len() implies (#[trigger] node.children@[i]).root.block_hash != current_block_hash by {
+//@|             assert(tip_successors@[i].block_hash == node.children@[i].root.block_hash);
+//@|         }
+//@|     }
+//@|     Ok(())
+//@| }
+//@ before "vp_any = true;"
+//@| proof {
+//@|     assert(0 <= vp_seen < tip_successors@.len() && tip_successors@[vp_seen].block_hash == current_block_hash);
+//@| }
+//@ before "if vp_any {"
+//@| proof {
+//@|     // the successors handed back are exactly the children of the parent's node
+//@|     let t = state.unstable_blocks.tree;
+//@|     let node = t.subtree_at(t.idx_path_to(prev_block_hash));
+//@|     assert(deref_seq(tip_successors@) =~= node.child_roots());
+//@|     assert forall|j: int| 0 <= j < tip_successors@.len() implies (#[trigger] tip_successors@[j]).block_hash == node.children@[j].root.block_hash by {
+//@|         assert(deref_seq(tip_successors@)[j] == node.child_roots()[j]);
+//@|     }
+//@| }
+//@ before "let mut vp_any = false;"
+//@| let ghost mut vp_seen: int = 0;
+//@ loop 1 binder=its
+//@| invariant_except_break
+//@|     !vp_any,
+//@| invariant
+//@|     0 <= vp_seen <= tip_successors@.len(),
+//@|     !vp_any ==> vp_seen == its.index@,
+//@|     forall|j: int| 0 <= j < vp_seen ==> (#[trigger] tip_successors@[j]).block_hash != current_block_hash,
+//@|     vp_any ==> (vp_seen < tip_successors@.len() && tip_successors@[vp_seen].block_hash == current_block_hash),
+//@| ensures
+//@|     vp_any <==> exists|j: int| 0 <= j < tip_successors@.len() && (#[trigger] tip_successors@[j]).block_hash == current_block_hash,
+//@end
+
 struct ValidationContext<'a> { state: &'a State, header: Header }
 impl<'a> ValidationContext<'a> {
-    // [trusted:assumed-contract] ValidationContext::new (validation.rs:22; `.any(..)`, `.map(..).collect()` pipelines):
-    // BlockDoesNotExtendTree iff the parent is not in the unstable tree; AlreadyKnown iff the block is among the parent's
-    // children; otherwise a context for that header over the same (unchanged) state.
+    // [trusted:assumed-contract] ValidationContext::new (validation.rs:22) as seen by insert_block: its admission checks are
+    // VERIFIED above as the slice validation_context_new_checks against the same ctx_error_spec; what stays assumed is the
+    // glue of the two halves (the `.map(..).collect()` pipeline building `chain` cannot fail) and c.state == state.
     #[verifier::external_body]
     fn new(state: &'a State, header: &Header) -> (r: Result<ValidationContext<'a>, ValidationContextError>)
         ensures
